@@ -1,6 +1,6 @@
 (* C12 -- Feed-forward layers compute their documented formulas; Linen and NNX agree. *)
 From Coq Require Import ZArith QArith.
-From Flaxm Require Import Lib.Harness Model.NdIndex Model.Layers Proofs.Layers Proofs.ConvT Proofs.Conv2 Proofs.NdIndex Proofs.DenseG.
+From Flaxm Require Import Lib.Harness Model.NdIndex Model.Layers Proofs.Layers Proofs.ConvT Proofs.Conv2 Proofs.NdIndex Proofs.DenseG Model.Dropout Proofs.Dropout.
 Open Scope Z_scope.
 
 (* Conv: what the code does (jnp.pad with the boundary rule, then a VALID convolution) is the documented direct sum
@@ -168,9 +168,41 @@ Example C12_dense_general_example :
   dense_general [2; 2; 2]%nat [2; 0]%nat [1]%nat [1; 2; 3; 4; 5; 6; 7; 8] [1; 10; 100; 1000] None = [6521; 8743].
 Proof. vm_compute. split; reflexivity. Qed.
 
+(* Dropout (Model/Dropout.v; the bits of the Bernoulli draw are a parameter): identity when deterministic or at rate 0,
+   zero at rate 1, otherwise entry i is x_i / (1 - rate) where the mask bit of its broadcast position is set and 0
+   elsewhere; the mask does not depend on the data; elements that differ only along broadcast_dims share their bit; the
+   position read lies inside the broadcast shape *)
+Theorem C12_dropout_identity : forall det rate shape bd bits x, det = true \/ (rate == 0)%Q -> dropout det rate shape bd bits x = x.
+Proof. exact dropout_identity. Qed.
+Print Assumptions C12_dropout_identity.
+Theorem C12_dropout_rate_one : forall rate shape bd bits x, (rate == 1)%Q -> dropout false rate shape bd bits x = map (fun _ => 0%Q) x.
+Proof. exact dropout_rate_one. Qed.
+Print Assumptions C12_dropout_rate_one.
+Theorem C12_dropout_entry : forall rate shape bd bits x i, ~ (rate == 0)%Q -> ~ (rate == 1)%Q -> (i < length x)%nat ->
+  nth i (dropout false rate shape bd bits x) 0%Q =
+  drop_entry (1 - rate)%Q (mask_at shape (norm_dims (length shape) bd) bits i) (nth i x 0%Q).
+Proof. exact dropout_entry. Qed.
+Print Assumptions C12_dropout_entry.
+Theorem C12_dropout_mask_independent_of_data : forall rate shape bd bits, ~ (rate == 0)%Q -> ~ (rate == 1)%Q ->
+  exists m : nat -> bool, forall x i, (i < length x)%nat ->
+    nth i (dropout false rate shape bd bits x) 0%Q = drop_entry (1 - rate)%Q (m i) (nth i x 0%Q).
+Proof. exact dropout_mask_independent_of_data. Qed.
+Print Assumptions C12_dropout_mask_independent_of_data.
+Theorem C12_dropout_mask_shared_along_broadcast_dims : forall shape bd bits i j,
+  (forall a, (a < length shape)%nat -> ~ In a bd -> nth a (unravel shape i) 0%nat = nth a (unravel shape j) 0%nat) ->
+  mask_at shape bd bits i = mask_at shape bd bits j.
+Proof. exact mask_shared. Qed.
+Print Assumptions C12_dropout_mask_shared_along_broadcast_dims.
+Theorem C12_dropout_mask_position_in_range : forall shape bd i, (i < prod shape)%nat -> (mask_pos shape bd i < prod (bshape shape bd))%nat.
+Proof. exact mask_pos_lt. Qed.
+Print Assumptions C12_dropout_mask_position_in_range.
+Example C12_dropout_example :
+  map Qred (dropout false (1 # 2) [2; 3]%nat [(true, 2%nat)] [true; false; true] [1; 2; 3; 4; 5; 6]%Q) = [2; 0; 6; 8; 0; 12]%Q.
+Proof. vm_compute. reflexivity. Qed.
+
 (* NOT proved (decided per run against the independent numpy reference and, for Dense / Conv1D / Embed / pooling /
    BatchNorm statistics, against this model): DenseGeneral batch_dims, Einsum axis arithmetic, 2-D ConvTranspose, ConvLocal,
-   Dropout, Linen = NNX. *)
+   Linen = NNX. *)
 Example C12_example :
   let c := mkConv [[[1]; [0]]; [[0]; [2]]; [[1]; [1]]] (Some [1]) 2 1 1 2 1 in
   let x := [[1; 2]; [3; 4]; [5; 6]; [7; 8]; [9; 10]] in
